@@ -10,6 +10,7 @@ ALPHABET = [-1, 0, 1, 5, 2 ** 32]
 KNOWN_PREC = 'C04-precedence'
 KNOWN_EXCEPT_MARKER = 'C04-except-marker'
 KNOWN_UNBOUNDED_PART = 'C04-unbounded-extensible-part'
+KNOWN_INCLUSION = 'C04-contained-subtype-not-folded'
 
 
 def unbounded_extensible_part(ms):
@@ -314,6 +315,77 @@ def judge_e2e(ck, cases, results):
                          why='emitted bound excludes a permitted value, is not the effective constraint, or extensibility is wrong')
 
 
+def inclusion_module(elems, ops, marker, j):
+    """the expression with operand j written as the inclusion of a type constrained to exactly that operand (same permitted values),
+    and the whole expression reached through the inclusion of a string type that carries it as its SIZE"""
+    shown = [dict(e) for e in elems]
+    shown[j] = {'k': 'ref', 'name': 'Inc'}
+    text = G.t_constraint({'set': G.chain(elems, ops), 'ext': marker})
+    text2 = G.t_constraint({'set': G.chain(shown, ops), 'ext': marker})
+    return ('M DEFINITIONS AUTOMATIC TAGS ::= BEGIN\n'
+            'Inc ::= INTEGER (%s)\n'
+            'Aa ::= INTEGER %s\n'
+            'Bb ::= SEQUENCE { b INTEGER %s }\n'
+            'Parent ::= INTEGER\nCc ::= SEQUENCE { c Parent %s }\n'
+            'IncS ::= IA5String (SIZE %s)\n'
+            'Jj ::= SEQUENCE { j IA5String (IncS) }\n'
+            'Kk ::= IA5String (IncS)\n'
+            'END\n') % (G.t_elem(elems[j]), text2, text2, text2, text), text2
+
+
+def judge_inclusion(ck, cases, results):
+    terms, idx = [], []
+    for i, (c, r) in enumerate(zip(cases, results)):
+        elems, ops, marker, j = c['_m']
+        ck.note_case('incl:' + c['sources'][0])
+        ck.count('inclusion')
+        if 'panic' in r or 'crash' in r:
+            ck.violation('impl-violation', c['sources'][0], impl=r, why='compiler crashed')
+            continue
+        if not r.get('ok') or 'items' not in r:
+            ck.count('inclusion-rejected')
+            continue
+        obs = []
+        for name, pos, signed, is_size, field in (('Aa', 'assign', True, False, False), ('Bb', 'component', True, False, True),
+                                                  ('Cc', 'typeref', True, False, True), ('Jj', 'size-included', False, True, True),
+                                                  ('Kk', 'size-included-assign', False, True, False)):
+            it = find(r['items'], 'struct', name)
+            if it:
+                obs.append((pos, signed, is_size, parse_attr(it['fields'][0]['attrs'] if field else it['attrs'], is_size)))
+        if len(obs) < 5 and not r.get('warnings'):
+            ck.violation('impl-violation', c['sources'][0], why='a type with a valid constraint was not generated', got=[x[0] for x in obs])
+        for pos, signed, is_size, (kind, mn, mx, ext) in obs:
+            if kind is None and not signed:
+                mn, mx, ext = 0, None, False
+            if is_size and mn is None:
+                mn = 0
+            if is_size and kind == 'value' and (mn, mx) == (0, None):
+                kind, ext = None, False             # `value("0..")` on a string: says nothing about the size
+            if kind is not None and (kind == 'size') != is_size:
+                ck.violation('impl-violation', c['sources'][0], why='%s: wrong annotation kind %s' % (pos, kind))
+                continue
+            fl = flat_term(with_marker(elems, marker), ops)
+            terms.append('(%s, false, %s, %s, %s, %s)' % (fl, cbool(signed), copt(mn, cz), copt(mx, cz), cbool(ext)))
+            idx.append((i, pos))
+    bad, unsound, mono = coq_eval_bad_multi('C04', REQ, 'flat * bool * bool * option Z * option Z * bool',
+                                            ['oracle', 'oracle_sound', 'fun c => ops_monotone (fst (fst (fst (fst (fst c)))))'], terms, label='incl')
+    unsound, nonmono = set(unsound), set(mono)
+    for jx in bad:
+        i, pos = idx[jx]
+        c = cases[i]
+        elems, ops, marker, j = c['_m']
+        if jx in nonmono and ck.is_known(KNOWN_PREC):
+            ck.known_hit(KNOWN_PREC, {'constraint': c['_text'], 'position': pos})
+        elif 'except' in ops and marker and ck.is_known(KNOWN_EXCEPT_MARKER):
+            ck.known_hit(KNOWN_EXCEPT_MARKER, {'constraint': c['_text'], 'position': pos})
+        elif jx not in unsound and ops and not pos.startswith('size') and ck.is_known(KNOWN_INCLUSION):
+            ck.known_hit(KNOWN_INCLUSION, {'constraint': c['_text'], 'Inc': G.t_elem(elems[j]), 'position': pos})
+        else:
+            ck.violation('impl-violation', c['sources'][0], position=pos, term=terms[jx],
+                         why='with a contained subtype: emitted bound excludes a permitted value, extensibility is wrong, or (single inclusion) '
+                             'the bound is not the included type\'s')
+
+
 def refs_module(rng_):
     a1 = rng_.randint(-5, 5); a2 = a1 + rng_.randint(1, 40)
     z1 = rng_.randint(-300, 300); z2 = z1 + rng_.randint(1, 70000)
@@ -423,6 +495,19 @@ def run(ck):
     if e2e:
         ck.sample({'asn1': e2e[0]['sources'][0]})
     judge_e2e(ck, e2e, run_harness(e2e))
+    incl = []
+    for elems, ops, marker in flats[-(300 if ck.tier == 'quick' else 4000):]:
+        if any(e['k'] == 'range' and e['lo'] and e['hi'] and int(e['lo']['i']) > int(e['hi']['i']) for e in elems):
+            continue
+        if any((e['k'] == 'single' and int(e['v']['i']) < 0) or (e['k'] == 'range' and ((e['lo'] and int(e['lo']['i']) < 0) or (e['hi'] and int(e['hi']['i']) < 0)))
+               for e in elems):
+            continue
+        j = ck.rng.randrange(len(elems))
+        src, text2 = inclusion_module(elems, ops, marker, j)
+        incl.append({'op': 'compile', 'sources': [src], '_m': (elems, ops, marker, j), '_text': text2})
+    if incl:
+        ck.sample({'asn1': incl[0]['sources'][0]})
+    judge_inclusion(ck, incl, run_harness(incl))
     refs = []
     for _ in range(60 if ck.tier == 'quick' else 1500):
         src, expect = refs_module(ck.rng)
